@@ -137,6 +137,7 @@ type live struct {
 	dsse    bool
 	signers map[string]bool // reference model: who has signed the current content
 	work    string
+	foreign bool // the envelope's payload bytes were written by another implementation (other JSON formatting)
 }
 
 func start(work, content string, dsse bool) (*live, error) {
@@ -174,6 +175,31 @@ func (l *live) apply(op string) error {
 			}
 			l.md = &mb
 		}
+	case strings.HasPrefix(op, "ForeignEnvelope:"):
+		// another implementation wrote and signed this metadata as a DSSE envelope: same content, its own JSON
+		// formatting of the payload (indented, blanks after separators), one signature over the PAE of those bytes
+		k := gen.Key(op[len("ForeignEnvelope:"):])
+		body, err := json.MarshalIndent(l.md.GetPayload(), "", "  ")
+		if err != nil {
+			return err
+		}
+		sb, err := ref.SignRaw(k.Signer, ref.PAE("application/vnd.in-toto+json", body))
+		if err != nil {
+			return err
+		}
+		doc := map[string]any{"payloadType": "application/vnd.in-toto+json", "payload": base64.StdEncoding.EncodeToString(body),
+			"signatures": []any{map[string]any{"keyid": k.ID, "sig": base64.StdEncoding.EncodeToString(sb)}}}
+		raw, _ := json.Marshal(doc)
+		os.Remove(path)
+		if err := os.WriteFile(path, raw, 0o644); err != nil {
+			return err
+		}
+		md, err := intoto.LoadMetadata(path)
+		if err != nil {
+			return fmt.Errorf("LoadMetadata of an envelope written by another implementation: %w", err)
+		}
+		l.md, l.foreign = md, true
+		l.signers = map[string]bool{k.Name: true}
 	case strings.HasPrefix(op, "RefSign:"):
 		// an independent implementation adds its signature to the file; the library loads it
 		k := gen.Key(op[8:])
@@ -215,7 +241,7 @@ func (l *live) modelKey() string {
 		s = append(s, k)
 	}
 	sort.Strings(s)
-	return fmt.Sprintf("%s|dsse=%v|%s", l.content, l.dsse, strings.Join(s, ","))
+	return fmt.Sprintf("%s|dsse=%v|foreign-bytes=%v|%s", l.content, l.dsse, l.foreign, strings.Join(s, ","))
 }
 
 // invariant checks one state; returns signature and observation of the first violation.
@@ -539,6 +565,9 @@ func run(c *mcx.Ctx) {
 				ops = append(ops, "Sign:"+k)
 			}
 			ops = append(ops, "RefSign:"+keys[0], "RefSign:"+keys[len(keys)-1])
+			if dsse {
+				ops = append(ops, "ForeignEnvelope:"+keys[0])
+			}
 			seen := map[string]bool{}
 			frontier := [][]string{{}}
 			if l, _ := start(c.Work, content, dsse); l != nil {
